@@ -443,7 +443,6 @@ class Client(tyming.Tymee):
             if ex.args[0] in (errno.EAGAIN, errno.EWOULDBLOCK):
                 count = 0  # blocked try again
             elif ex.args[0] in (errno.ECONNRESET,
-                                errno.EPIPE,
                                 errno.ENETRESET,
                                 errno.ENETUNREACH,
                                 errno.EHOSTUNREACH,
@@ -479,7 +478,13 @@ class Client(tyming.Tymee):
         Attempt to send all of .txbs. Delete what is actually sent.
         """
         while self.txbs and self.connected and not self.cutoff:
-            count = self.send(self.txbs)
+            try:
+                count = self.send(self.txbs)
+            except OSError as ex:
+                if ex.args[0] in (errno.EPIPE, ):  # far side gone
+                    self.cutoff = True  # signals need to close/reopen connection
+                    break
+                raise
             del self.txbs[:count]
             break  # try again later
 
@@ -733,7 +738,6 @@ class ClientTls(Client):
             if ex.args[0] in (ssl.SSL_ERROR_WANT_READ, ssl.SSL_ERROR_WANT_WRITE):
                 result = 0
             elif ex.args[0] in (errno.ECONNRESET,
-                                errno.EPIPE,
                                 errno.ENETRESET,
                                 errno.ENETUNREACH,
                                 errno.EHOSTUNREACH,
